@@ -268,4 +268,62 @@ theorem length_update_ge (m o : List (K × V)) : m.length ≤ (update m o).lengt
     rw [length_put]; split <;> omega
 
 end AMap
+
+/-! ### insertion sort -/
+
+theorem insertBy_perm {α : Type} (le : α → α → Bool) (x : α) (l : List α) : (insertBy le x l).Perm (x :: l) := by
+  induction l with
+  | nil => exact List.Perm.refl _
+  | cons y ys ih =>
+    simp only [insertBy]
+    split
+    · exact List.Perm.refl _
+    · exact (List.Perm.cons y ih).trans (List.Perm.swap x y ys)
+
+theorem isort_perm {α : Type} (le : α → α → Bool) (l : List α) : (isort le l).Perm l := by
+  induction l with
+  | nil => exact List.Perm.refl _
+  | cons x xs ih => exact (insertBy_perm le x _).trans (List.Perm.cons x ih)
+
+theorem insertBy_pairwise {α : Type} (le : α → α → Bool)
+    (trans : ∀ a b c, le a b = true → le b c = true → le a c = true)
+    (total : ∀ a b, (le a b || le b a) = true) (x : α) (l : List α)
+    (h : l.Pairwise (fun a b => le a b = true)) : (insertBy le x l).Pairwise (fun a b => le a b = true) := by
+  induction l with
+  | nil => simp [insertBy]
+  | cons y ys ih =>
+    simp only [insertBy]
+    have hy := List.pairwise_cons.mp h
+    split
+    · rename_i hxy
+      refine List.pairwise_cons.mpr ⟨?_, h⟩
+      intro a ha
+      rcases List.mem_cons.mp ha with rfl | ha
+      · exact hxy
+      · exact trans _ _ _ hxy (hy.1 a ha)
+    · rename_i hxy
+      have hyx : le y x = true := by
+        have := total x y
+        simp only [Bool.or_eq_true] at this
+        rcases this with h1 | h1
+        · exact absurd h1 hxy
+        · exact h1
+      refine List.pairwise_cons.mpr ⟨?_, ih hy.2⟩
+      intro a ha
+      have := (insertBy_perm le x ys).mem_iff.mp ha
+      rcases List.mem_cons.mp this with rfl | ha'
+      · exact hyx
+      · exact hy.1 a ha'
+
+theorem isort_pairwise {α : Type} (le : α → α → Bool)
+    (trans : ∀ a b c, le a b = true → le b c = true → le a c = true)
+    (total : ∀ a b, (le a b || le b a) = true) (l : List α) :
+    (isort le l).Pairwise (fun a b => le a b = true) := by
+  induction l with
+  | nil => simp [isort]
+  | cons x xs ih => exact insertBy_pairwise le trans total x _ ih
+
+theorem mem_isort {α : Type} (le : α → α → Bool) (l : List α) (a : α) : a ∈ isort le l ↔ a ∈ l :=
+  (isort_perm le l).mem_iff
+
 end Klepto
